@@ -224,6 +224,7 @@ def non_geometry_edits(spec, ds):
 
 def check_spec(spec, ctx):
     import_emsarray()
+    spec = dict(spec, decoy_latlon=False)      # (keys are made on auto-detected conventions here)
     with warnings.catch_warnings():
         warnings.simplefilter("ignore")
         ds = specs.build(spec)
@@ -339,6 +340,7 @@ def rebuilt_with_fresh_attributes(spec, ds):
 
 
 def check_attribute_identity(spec, ctx):
+    spec = dict(spec, decoy_latlon=False)
     import_emsarray()
     with warnings.catch_warnings():
         warnings.simplefilter("ignore")
